@@ -402,3 +402,61 @@ func GoroutineDump(substr string) []string {
 	}
 	return out
 }
+
+// ---- scheduling-latency probe ------------------------------------------------------------------
+//
+// Verdicts of the form "X did not happen within T" are only as good as the machine's ability to run
+// goroutines on time. A probe goroutine sleeps 5 ms at a time and records by how much each sleep overshoots;
+// a check asks for the worst overshoot during the interval its verdict depends on and treats the case as
+// inconclusive if the harness' own timers were that late.
+
+type jitterSample struct {
+	at   time.Time
+	over time.Duration
+}
+
+var (
+	jitterOnce sync.Once
+	jitterMu   sync.Mutex
+	jitterRing []jitterSample
+)
+
+func startJitterProbe() {
+	jitterOnce.Do(func() {
+		go func() {
+			for {
+				t0 := time.Now()
+				time.Sleep(5 * time.Millisecond)
+				over := time.Since(t0) - 5*time.Millisecond
+				if over > 20*time.Millisecond {
+					jitterMu.Lock()
+					jitterRing = append(jitterRing, jitterSample{time.Now(), over})
+					if len(jitterRing) > 4096 {
+						jitterRing = jitterRing[len(jitterRing)-2048:]
+					}
+					jitterMu.Unlock()
+				}
+			}
+		}()
+	})
+}
+
+// Jitter returns the largest overshoot of the probe's 5 ms sleeps observed since `since` (0 if none above 20 ms).
+func Jitter(since time.Time) time.Duration {
+	startJitterProbe()
+	jitterMu.Lock()
+	defer jitterMu.Unlock()
+	var m time.Duration
+	for i := len(jitterRing) - 1; i >= 0; i-- {
+		if jitterRing[i].at.Before(since) {
+			break
+		}
+		if jitterRing[i].over > m {
+			m = jitterRing[i].over
+		}
+	}
+	return m
+}
+
+// StartJitterProbe starts the probe (idempotent); called by the CLI before any check runs.
+func StartJitterProbe() { startJitterProbe() }
